@@ -75,19 +75,19 @@ var (
 	Local = time.Local
 )
 
-func Now() Time                                  { return time.Now() }
-func Since(t Time) Duration                      { return time.Since(t) }
-func Until(t Time) Duration                      { return time.Until(t) }
-func Sleep(d Duration)                           { time.Sleep(d) }
-func After(d Duration) <-chan Time               { return time.After(d) }
-func Tick(d Duration) <-chan Time                { return time.Tick(d) }
-func NewTimer(d Duration) *Timer                 { return time.NewTimer(d) }
-func NewTicker(d Duration) *Ticker               { return time.NewTicker(d) }
-func Unix(sec int64, nsec int64) Time            { return time.Unix(sec, nsec) }
-func UnixMilli(msec int64) Time                  { return time.UnixMilli(msec) }
-func UnixMicro(usec int64) Time                  { return time.UnixMicro(usec) }
-func ParseDuration(s string) (Duration, error)   { return time.ParseDuration(s) }
-func Parse(layout, value string) (Time, error)   { return time.Parse(layout, value) }
+func Now() Time                                   { return time.Now() }
+func Since(t Time) Duration                       { return time.Since(t) }
+func Until(t Time) Duration                       { return time.Until(t) }
+func Sleep(d Duration)                            { time.Sleep(d) }
+func After(d Duration) <-chan Time                { return time.After(d) }
+func Tick(d Duration) <-chan Time                 { return time.Tick(d) }
+func NewTimer(d Duration) *Timer                  { return time.NewTimer(d) }
+func NewTicker(d Duration) *Ticker                { return time.NewTicker(d) }
+func Unix(sec int64, nsec int64) Time             { return time.Unix(sec, nsec) }
+func UnixMilli(msec int64) Time                   { return time.UnixMilli(msec) }
+func UnixMicro(usec int64) Time                   { return time.UnixMicro(usec) }
+func ParseDuration(s string) (Duration, error)    { return time.ParseDuration(s) }
+func Parse(layout, value string) (Time, error)    { return time.Parse(layout, value) }
 func FixedZone(name string, offset int) *Location { return time.FixedZone(name, offset) }
 func LoadLocation(name string) (*Location, error) { return time.LoadLocation(name) }
 func Date(year int, month Month, day, hour, min, sec, nsec int, loc *Location) Time {
